@@ -305,3 +305,362 @@ Example C06_ilu0_nonvacuous : x0_A4_check = true.
 Proof. exact x0_A4_nonvacuous. Qed.
 Example C06_sweeps_nonvacuous : c06_sweeps_check = true.
 Proof. exact c06_sweeps_check_ok. Qed.
+
+(* ====================================================================================== *)
+(* NON-COMMUTATIVE value types (amgcl::static_matrix<T,b,b> blocks): the operand ORDER of every
+   product is part of the statement.  [ncring_theory S] (NcRing.v) = ring laws without
+   commutativity of [*]; every commutative ring and every [BlockS S0 b] (BlockInst.v: the Scalar
+   instance of b x b blocks, carrier = std::array<T,b*b> as a length-indexed row-major list) is an
+   instance.  Vector entries (static_matrix<T,b,1>) are the column-0 blocks, base scalars are c*I.
+   Inverses: a field law "x <> 0 -> x^-1 x = 1" is not available; the hypotheses name the one-sided
+   law that is used.  Proofs: NcKernels.v, BlockRelaxProofs*.v, BlockIlu0Exact.v, NcRingBlock*.v. *)
+From Amgcl Require Import StaticMat BlockInst NcRing NcRingBlock NcRingBlockInv NcKernels
+  BlockRelaxProofs BlockRelaxProofsIlu BlockRelaxProofsCheby BlockIlu0Exact BlockRelaxExamples.
+
+Theorem C06_nc_commutative_rings_are_instances (S : Scalar) : Sring S -> ncring_theory S.
+Proof. exact (ncring_of_ring S). Qed.
+Print Assumptions C06_nc_commutative_rings_are_instances.
+
+Section NonCommutative.
+Variable S : Scalar.
+Hypothesis Hnc : ncring_theory S.
+Hypothesis Seqb : seqb_spec S.
+
+(* --- 1'. damped Jacobi / SPAI-0: x' = x + (M_i) * (f - A x)_i, M_i on the LEFT ------------- *)
+Theorem C06_nc_jacobi_sweep (w : S) (A : crs S) (junk rhs x tmp : vec S) i :
+  wf A = true ->
+  length rhs = nrows A -> length x = nrows A -> length tmp = nrows A -> i < nrows A ->
+  diag_unique A i -> mget A i i <> s0 ->
+  vget (fst (jacobi_sweep w (jacobi_setup A junk) A rhs x tmp)) i =
+  vget x i + w * sinv (mget A i i) * (vget rhs i - Ax A x i).
+Proof. exact (nc_jacobi_sweep_spec Hnc Seqb w A junk rhs x tmp i). Qed.
+
+Theorem C06_nc_spai0_sweep (A : crs S) (rhs x tmp : vec S) i :
+  wf A = true ->
+  length rhs = nrows A -> length x = nrows A -> length tmp = nrows A -> i < nrows A ->
+  vget (fst (spai0_sweep (spai0_setup A) A rhs x tmp)) i =
+  vget x i + sinv (row_norm2 (nth i (rows A) [])) * mget A i i * (vget rhs i - Ax A x i).
+Proof. exact (nc_spai0_sweep_spec Hnc Seqb A rhs x tmp i). Qed.
+
+(* --- 2'. Gauss-Seidel: a_ii * x'_i = f_i - sum a_ij * x_j ; needs a_ii * a_ii^-1 = 1 (RIGHT inverse) --- *)
+Theorem C06_nc_gs_forward (A : crs S) (rhs x : vec S) :
+  wf A = true -> ncols A = nrows A -> length rhs = nrows A -> length x = nrows A ->
+  (forall k, k < nrows A -> diag_unique A k) ->
+  forall i, i < nrows A -> mget A i i * sinv (mget A i i) = s1 ->
+  let x' := gs_sweep A rhs x true in
+  mget A i i * vget x' i =
+  vget rhs i
+  - sumn (fun j => if Nat.ltb j i then mget A i j * vget x' j else s0) (nrows A)
+  - sumn (fun j => if Nat.ltb i j then mget A i j * vget x j else s0) (nrows A).
+Proof. exact (nc_gs_forward_spec Hnc A rhs x). Qed.
+
+Theorem C06_nc_gs_backward (A : crs S) (rhs x : vec S) :
+  wf A = true -> ncols A = nrows A -> length rhs = nrows A -> length x = nrows A ->
+  (forall k, k < nrows A -> diag_unique A k) ->
+  forall i, i < nrows A -> mget A i i * sinv (mget A i i) = s1 ->
+  let x'' := gs_sweep A rhs x false in
+  mget A i i * vget x'' i =
+  vget rhs i
+  - sumn (fun j => if Nat.ltb i j then mget A i j * vget x'' j else s0) (nrows A)
+  - sumn (fun j => if Nat.ltb j i then mget A i j * vget x j else s0) (nrows A).
+Proof. exact (nc_gs_backward_spec Hnc A rhs x). Qed.
+
+(* --- 3'. fixed points ------------------------------------------------------------------------ *)
+Theorem C06_nc_jacobi_fixed_point (w : S) (A : crs S) (junk rhs x tmp : vec S) :
+  wf A = true ->
+  length rhs = nrows A -> length x = nrows A -> length tmp = nrows A ->
+  (forall i, i < nrows A -> Ax A x i = vget rhs i) ->
+  forall i, i < nrows A ->
+  vget (fst (jacobi_sweep w (jacobi_setup A junk) A rhs x tmp)) i = vget x i.
+Proof. exact (nc_jacobi_sweep_fixed Hnc Seqb w A junk rhs x tmp). Qed.
+
+Theorem C06_nc_spai0_fixed_point (A : crs S) (rhs x tmp : vec S) :
+  wf A = true ->
+  length rhs = nrows A -> length x = nrows A -> length tmp = nrows A ->
+  (forall i, i < nrows A -> Ax A x i = vget rhs i) ->
+  forall i, i < nrows A ->
+  vget (fst (spai0_sweep (spai0_setup A) A rhs x tmp)) i = vget x i.
+Proof. exact (nc_spai0_sweep_fixed Hnc Seqb A rhs x tmp). Qed.
+
+(* needs a_kk^-1 * a_kk = 1 (LEFT inverse) *)
+Theorem C06_nc_gs_fixed_point (A : crs S) (rhs x : vec S) (b : bool) :
+  wf A = true -> length x = nrows A ->
+  (forall i, i < nrows A -> Ax A x i = vget rhs i) ->
+  (forall k, k < nrows A -> diag_unique A k) ->
+  (forall k, k < nrows A -> sinv (mget A k k) * mget A k k = s1) ->
+  gs_sweep A rhs x b = x.
+Proof. exact (nc_gs_fixed_point Hnc A rhs x b). Qed.
+
+Theorem C06_nc_ilu_sweep_fixed_point (w : S) (L U : crs S) (D : vec S) (A : crs S) (rhs x tmp : vec S) :
+  wf A = true -> length rhs = nrows A -> length x = nrows A -> length tmp = nrows A ->
+  (forall i, i < nrows A -> Ax A x i = vget rhs i) ->
+  forall i, i < nrows A -> vget (fst (ilu_sweep w L U D A rhs x tmp)) i = vget x i.
+Proof. exact (nc_ilu_sweep_fixed_point Hnc Seqb w L U D A rhs x tmp). Qed.
+
+Theorem C06_nc_cheby_fixed_point (c d : S) (M : option (vec S)) (degree : nat) (A : crs S) (b x p r : vec S) :
+  wf A = true -> length b = nrows A -> length x = nrows A -> length p = nrows A -> length r = nrows A ->
+  (forall m, M = Some m -> length m = nrows A) ->
+  (forall i, i < nrows A -> Ax A x i = vget b i) ->
+  forall i, i < nrows A -> vget (cheby_sweep (c, d, M) degree A b x p r) i = vget x i.
+Proof. exact (nc_cheby_sweep_fixed_point Hnc Seqb c d M degree A b x p r). Qed.
+
+(* --- 4'. triangular solve (detail::ilu_solve, serial), LEFT products, stored inverted pivots D_i --- *)
+Theorem C06_nc_lsolve_forward_substitution (L : crs S) (b : vec S) :
+  strict_lower L -> length b = nrows L ->
+  length (lsolve L b) = length b /\
+  (forall i, i < nrows L ->
+     vget (lsolve L b) i + sumn (fun j => mget L i j * vget (lsolve L b) j) (nrows L) = vget b i).
+Proof. exact (nc_lsolve_spec Hnc L b). Qed.
+
+Theorem C06_nc_usolve_backward_substitution (n : nat) (U : crs S) (D y : vec S) :
+  strict_upper n U -> length y = n ->
+  length (usolve n U D y) = n /\
+  (forall i, i < n ->
+     vget (usolve n U D y) i =
+     vget D i * (vget y i - sumn (fun j => mget U i j * vget (usolve n U D y) j) n)).
+Proof. exact (nc_usolve_spec Hnc n U D y). Qed.
+
+(* (I+L)(P+U) x = b with P_i any LEFT inverse of the stored D_i (P_i = the pivot block) *)
+Theorem C06_nc_ilu_solve (L U : crs S) (D b : vec S) (P : nat -> S) :
+  strict_lower L -> strict_upper (nrows L) U -> length b = nrows L ->
+  forall i, i < nrows L -> P i * vget D i = s1 ->
+  let y := lsolve L b in let x := ilu_solve L U D b in
+  vget y i + sumn (fun j => mget L i j * vget y j) (nrows L) = vget b i /\
+  P i * vget x i + sumn (fun j => mget U i j * vget x j) (nrows L) = vget y i.
+Proof. exact (nc_ilu_solve_spec_inv Hnc L U D b P). Qed.
+
+(* the solve is RIGHT-linear (left factors do not pass through L_ij * x_j) *)
+Theorem C06_nc_ilu_solve_right_linear (a b : S) (L U : crs S) (D w u v : vec S) :
+  length u = length w -> length v = length w ->
+  (forall i, i < length w -> vget w i = vget u i * a + vget v i * b) ->
+  forall i, vget (ilu_solve L U D w) i =
+            vget (ilu_solve L U D u) i * a + vget (ilu_solve L U D v) i * b.
+Proof. exact (nc_ilu_solve_right_linear Hnc a b L U D w u v). Qed.
+
+(* --- 5'. exact solve when the factors fit: (I+L)(U+D^-1) = A entry-wise (block products) --------- *)
+Theorem C06_nc_ilu_exact_solve (A L U : crs S) (D b : vec S) :
+  strict_lower L -> strict_upper (nrows L) U -> length b = nrows L -> ncols A = nrows L ->
+  (forall i, i < nrows L -> sinv (vget D i) * vget D i = s1) ->
+  (forall i j, i < nrows L -> j < nrows L -> lu_entry L U D i j = mget A i j) ->
+  forall i, i < nrows L -> Ax A (ilu_solve L U D b) i = vget b i.
+Proof. exact (nc_ilu_exact_solve_lu Hnc A L U D b). Qed.
+
+Theorem C06_nc_ilu0_exact_solve (A : crs S) (junk : vec S) (L U : crs S) (D b x0 : vec S) :
+  ilu0 A junk = Ok (L, U, D) -> wf A = true -> ncols A = nrows A ->
+  length b = nrows A -> length x0 = nrows A ->
+  (forall i, i < nrows A -> sinv (vget D i) * vget D i = s1) ->
+  (forall i j, i < nrows A -> j < nrows A -> lu_entry L U D i j = mget A i j) ->
+  forall i, i < nrows A -> Ax A (ilu_apply L U D b x0) i = vget b i.
+Proof. exact (nc_ilu0_exact_solve Hnc A junk L U D b x0). Qed.
+
+(* --- 6'. ILU(0) as coded (multiplier l_ic = w_c * D_c, inverted pivot on the RIGHT) reproduces A on
+       its pattern with block products.  [Hinv]: sinv returns a right inverse or the zero default; the
+       run-time conditions D_k <> 0, sinv D_k <> 0 say that both inversions succeeded ------------- *)
+Hypothesis Hinv : forall x : S, sinv x <> s0 -> x * sinv x = s1.
+
+Theorem C06_nc_ilu0_exact_on_pattern (A : crs S) (junk : vec S) (L U : crs S) (D : vec S) :
+  wf A = true -> ncols A = nrows A ->
+  (forall i, i < nrows A -> sorted_strict (nth i (rows A) []) = true) ->
+  has_diag A = true ->
+  ilu0 A junk = Ok (L, U, D) ->
+  (forall k, k < nrows A -> vget D k <> s0 /\ sinv (vget D k) <> s0) ->
+  forall i j, i < nrows A -> has_col j (nth i (rows A) []) = true ->
+    lu_entry L U D i j = mget A i j.
+Proof. exact (nc_ilu0_exact_on_pattern Hnc Seqb Hinv A junk L U D). Qed.
+
+Theorem C06_nc_ilup_exact_on_pattern (k : nat) (A : crs S) (junk : vec S) (L U : crs S) (D : vec S) :
+  let P := ilup_matrix k A in
+  wf P = true -> ncols P = nrows P ->
+  (forall i, i < nrows P -> sorted_strict (nth i (rows P) []) = true) ->
+  has_diag P = true ->
+  ilup k A junk = Ok (L, U, D) ->
+  (forall i, i < nrows P -> vget D i <> s0 /\ sinv (vget D i) <> s0) ->
+  forall i j, i < nrows P -> has_col j (nth i (rows P) []) = true ->
+    lu_entry L U D i j = mget P i j.
+Proof. exact (nc_ilup_exact_on_pattern Hnc Seqb Hinv k A junk L U D). Qed.
+
+End NonCommutative.
+Print Assumptions C06_nc_jacobi_sweep.
+Print Assumptions C06_nc_spai0_sweep.
+Print Assumptions C06_nc_gs_forward.
+Print Assumptions C06_nc_gs_backward.
+Print Assumptions C06_nc_jacobi_fixed_point.
+Print Assumptions C06_nc_spai0_fixed_point.
+Print Assumptions C06_nc_gs_fixed_point.
+Print Assumptions C06_nc_ilu_sweep_fixed_point.
+Print Assumptions C06_nc_cheby_fixed_point.
+Print Assumptions C06_nc_lsolve_forward_substitution.
+Print Assumptions C06_nc_usolve_backward_substitution.
+Print Assumptions C06_nc_ilu_solve.
+Print Assumptions C06_nc_ilu_solve_right_linear.
+Print Assumptions C06_nc_ilu_exact_solve.
+Print Assumptions C06_nc_ilu0_exact_solve.
+Print Assumptions C06_nc_ilu0_exact_on_pattern.
+Print Assumptions C06_nc_ilup_exact_on_pattern.
+
+(* --- the block instance satisfies the hypotheses ------------------------------------------------ *)
+Theorem C06_nc_blocks_form_a_ring (S0 : Scalar) (b : nat) : Sring S0 -> ncring_theory (BlockS S0 b).
+Proof. exact (BlockS_ncring S0 b). Qed.
+Print Assumptions C06_nc_blocks_form_a_ring.
+
+Theorem C06_nc_blocks_decidable_equality (S0 : Scalar) (b : nat) : seqb_spec S0 -> seqb_spec (BlockS S0 b).
+Proof. exact (BlockS_eqb S0 b). Qed.
+Print Assumptions C06_nc_blocks_decidable_equality.
+
+(* math::inverse(static_matrix) = detail::inverse: a result other than the out-of-domain default is a right inverse *)
+Theorem C06_nc_block_inverse_is_right_inverse (S0 : Scalar) (b : nat) :
+  Sfield S0 -> seqb_spec S0 -> sinv (@s0 S0) = s0 ->
+  forall x : BlockS S0 b, sinv x <> s0 -> x * sinv x = s1.
+Proof. exact (BlockS_inv_right S0 b). Qed.
+Print Assumptions C06_nc_block_inverse_is_right_inverse.
+
+Theorem C06_nc_block_inverse_two_sided (S0 : Scalar) (b : nat) :
+  Sfield S0 -> seqb_spec S0 -> sinv (@s0 S0) = s0 ->
+  forall x : BlockS S0 b, sinv x <> s0 -> sinv (sinv x) <> s0 ->
+  x * sinv x = s1 /\ sinv x * x = s1 /\ sinv (sinv x) = x.
+Proof. exact (BlockS_inv_two_sided S0 b). Qed.
+Print Assumptions C06_nc_block_inverse_two_sided.
+
+(* base scalars embed as c*I: central, (c I) * M = c * M cell by cell (the C++ `c * M`) *)
+Theorem C06_nc_embedded_scalars_central (S0 : Scalar) (b : nat) : Sring S0 ->
+  forall (c : S0) (x : BlockS S0 b),
+  blk_mul S0 b (blk_embed S0 b c) x = blk_mul S0 b x (blk_embed S0 b c) /\
+  forall i j, i < b -> j < b -> blk_get (blk_mul S0 b (blk_embed S0 b c) x) i j = c * blk_get x i j.
+Proof. exact (blk_embed_central_cells S0 b). Qed.
+Print Assumptions C06_nc_embedded_scalars_central.
+
+(* vector entries (static_matrix<T,b,1>) = column-0 blocks: closed under +, -, unary -, LEFT products, and the
+   LEFT product acts on column 0 as the matrix-vector product *)
+Theorem C06_nc_vector_entries_closed (S0 : Scalar) (b : nat) : Sring S0 ->
+  forall (a x y : BlockS S0 b), is_col S0 b x -> is_col S0 b y ->
+  is_col S0 b (blk_add S0 b x y) /\ is_col S0 b (blk_sub S0 b x y) /\ is_col S0 b (blk_neg S0 b x) /\
+  is_col S0 b (blk_mul S0 b a x) /\
+  (forall (v : vec S0) i, i < b ->
+     blk_get (blk_mul S0 b a (blk_col S0 b v)) i 0 = sumn (fun k => blk_get a i k * vget v k) b).
+Proof. exact (is_col_closed S0 b). Qed.
+Print Assumptions C06_nc_vector_entries_closed.
+
+(* --- closed instances: b x b blocks of exact rationals ------------------------------------------- *)
+Theorem C06_nc_ilu0_exact_on_pattern_blocks (b : nat) (A : crs (BlockS QcS b)) (junk : vec (BlockS QcS b))
+        (L U : crs (BlockS QcS b)) (D : vec (BlockS QcS b)) :
+  wf A = true -> ncols A = nrows A ->
+  (forall i, i < nrows A -> sorted_strict (nth i (rows A) []) = true) ->
+  has_diag A = true ->
+  ilu0 A junk = Ok (L, U, D) ->
+  (forall k, k < nrows A -> vget D k <> s0 /\ sinv (vget D k) <> s0) ->
+  forall i j, i < nrows A -> has_col j (nth i (rows A) []) = true ->
+    lu_entry L U D i j = mget A i j.
+Proof. exact (nc_ilu0_exact_on_pattern_blocks b A junk L U D). Qed.
+Print Assumptions C06_nc_ilu0_exact_on_pattern_blocks.
+
+Theorem C06_nc_gs_forward_blocks (b : nat) (A : crs (BlockS QcS b)) (rhs x : vec (BlockS QcS b)) :
+  wf A = true -> ncols A = nrows A -> length rhs = nrows A -> length x = nrows A ->
+  (forall k, k < nrows A -> diag_unique A k) ->
+  forall i, i < nrows A -> sinv (mget A i i) <> s0 ->
+  let x' := gs_sweep A rhs x true in
+  mget A i i * vget x' i =
+  vget rhs i
+  - sumn (fun j => if Nat.ltb j i then mget A i j * vget x' j else s0) (nrows A)
+  - sumn (fun j => if Nat.ltb i j then mget A i j * vget x j else s0) (nrows A).
+Proof. exact (nc_gs_forward_blocks b A rhs x). Qed.
+Print Assumptions C06_nc_gs_forward_blocks.
+
+Theorem C06_nc_ilu_sweep_fixed_point_blocks (b : nat) (w : BlockS QcS b) (L U : crs (BlockS QcS b)) (D : vec (BlockS QcS b))
+        (A : crs (BlockS QcS b)) (rhs x tmp : vec (BlockS QcS b)) :
+  wf A = true -> length rhs = nrows A -> length x = nrows A -> length tmp = nrows A ->
+  (forall i, i < nrows A -> Ax A x i = vget rhs i) ->
+  forall i, i < nrows A -> vget (fst (ilu_sweep w L U D A rhs x tmp)) i = vget x i.
+Proof. exact (nc_ilu_sweep_fixed_point_blocks b w L U D A rhs x tmp). Qed.
+Print Assumptions C06_nc_ilu_sweep_fixed_point_blocks.
+
+(* --- 7'. ILU(0) IS AN EXACT SOLVE when the pattern is closed under elimination (no fill-in), FULLY PROVED:
+       on the pattern by 6', off the pattern both sides vanish (structure theorem).  Block tridiagonal, arrow
+       (last row/column), triangular patterns are closed.  Holds for every non-commutative ring with [Hinv],
+       in particular for blocks and (closed instance below) for scalar rationals -- this also discharges the
+       hypothesis "lu_entry = mget everywhere" of C06_ilu0_exact_solve for these patterns. ------------- *)
+From Amgcl Require Import BlockIluClosed.
+Section NonCommutativeClosed.
+Variable S : Scalar.
+Hypothesis Hnc : ncring_theory S.
+Hypothesis Seqb : seqb_spec S.
+Hypothesis Hinv : forall x : S, sinv x <> s0 -> x * sinv x = s1.
+
+Theorem C06_nc_ilu0_closed_pattern_product (A : crs S) (junk : vec S) (L U : crs S) (D : vec S) :
+  wf A = true -> ncols A = nrows A ->
+  (forall i, i < nrows A -> sorted_strict (nth i (rows A) []) = true) ->
+  has_diag A = true -> pat_closed A ->
+  ilu0 A junk = Ok (L, U, D) ->
+  (forall k, k < nrows A -> vget D k <> s0 /\ sinv (vget D k) <> s0) ->
+  forall i j, i < nrows A -> lu_entry L U D i j = mget A i j.
+Proof. exact (nc_ilu0_closed_lu_eq_A Hnc Seqb Hinv A junk L U D). Qed.
+
+Theorem C06_nc_ilu0_closed_pattern_exact_solve (A : crs S) (junk : vec S) (L U : crs S) (D b x0 : vec S) :
+  wf A = true -> ncols A = nrows A ->
+  (forall i, i < nrows A -> sorted_strict (nth i (rows A) []) = true) ->
+  has_diag A = true -> pat_closed A ->
+  ilu0 A junk = Ok (L, U, D) ->
+  (forall k, k < nrows A -> vget D k <> s0 /\ sinv (vget D k) <> s0) ->
+  length b = nrows A -> length x0 = nrows A ->
+  forall i, i < nrows A -> Ax A (ilu_apply L U D b x0) i = vget b i.
+Proof. exact (nc_ilu0_closed_exact_solve Hnc Seqb Hinv A junk L U D b x0). Qed.
+
+Theorem C06_nc_ilu0_tridiagonal_exact_solve (A : crs S) (junk : vec S) (L U : crs S) (D b x0 : vec S) :
+  wf A = true -> ncols A = nrows A ->
+  (forall i, i < nrows A -> sorted_strict (nth i (rows A) []) = true) ->
+  has_diag A = true -> tridiagonal A ->
+  ilu0 A junk = Ok (L, U, D) ->
+  (forall k, k < nrows A -> vget D k <> s0 /\ sinv (vget D k) <> s0) ->
+  length b = nrows A -> length x0 = nrows A ->
+  forall i, i < nrows A -> Ax A (ilu_apply L U D b x0) i = vget b i.
+Proof. exact (nc_ilu0_tridiagonal_exact_solve Hnc Seqb Hinv A junk L U D b x0). Qed.
+
+(* the stored pivots D_k are two-sided inverses of sinv D_k = the pivot blocks *)
+Theorem C06_nc_ilu0_pivots_two_sided (A : crs S) (junk : vec S) (L U : crs S) (D : vec S) :
+  (forall i, i < nrows A -> sorted_strict (nth i (rows A) []) = true) ->
+  has_diag A = true ->
+  ilu0 A junk = Ok (L, U, D) ->
+  (forall k, k < nrows A -> vget D k <> s0 /\ sinv (vget D k) <> s0) ->
+  forall k, k < nrows A -> vget D k * sinv (vget D k) = s1 /\ sinv (vget D k) * vget D k = s1.
+Proof. exact (nc_ilu0_pivots_two_sided Hnc Seqb Hinv A junk L U D). Qed.
+
+End NonCommutativeClosed.
+Print Assumptions C06_nc_ilu0_closed_pattern_product.
+Print Assumptions C06_nc_ilu0_closed_pattern_exact_solve.
+Print Assumptions C06_nc_ilu0_tridiagonal_exact_solve.
+Print Assumptions C06_nc_ilu0_pivots_two_sided.
+
+Theorem C06_closed_patterns (S : Scalar) (A : crs S) :
+  (has_diag A = true -> tridiagonal A -> pat_closed A) /\
+  (has_diag A = true -> arrow_last A -> pat_closed A) /\
+  (upper_pattern A -> pat_closed A) /\ (lower_pattern A -> pat_closed A).
+Proof. exact (closed_patterns A). Qed.
+Print Assumptions C06_closed_patterns.
+
+Theorem C06_nc_ilu0_tridiagonal_exact_solve_blocks (b : nat) (A : crs (BlockS QcS b)) (junk : vec (BlockS QcS b))
+        (L U : crs (BlockS QcS b)) (D b0 x0 : vec (BlockS QcS b)) :
+  wf A = true -> ncols A = nrows A ->
+  (forall i, i < nrows A -> sorted_strict (nth i (rows A) []) = true) ->
+  has_diag A = true -> tridiagonal A ->
+  ilu0 A junk = Ok (L, U, D) ->
+  (forall k, k < nrows A -> vget D k <> s0 /\ sinv (vget D k) <> s0) ->
+  length b0 = nrows A -> length x0 = nrows A ->
+  forall i, i < nrows A -> Ax A (ilu_apply L U D b0 x0) i = vget b0 i.
+Proof. exact (nc_ilu0_tridiagonal_exact_solve_blocks b A junk L U D b0 x0). Qed.
+Print Assumptions C06_nc_ilu0_tridiagonal_exact_solve_blocks.
+
+(* scalar rationals: the exact-solve claim of A4 for closed patterns, without the "LU = A" hypothesis *)
+Theorem C06_ilu0_closed_pattern_exact_solve_Qc (A : crs QcS) (junk : vec QcS) (L U : crs QcS) (D b0 x0 : vec QcS) :
+  wf A = true -> ncols A = nrows A ->
+  (forall i, i < nrows A -> sorted_strict (nth i (rows A) []) = true) ->
+  has_diag A = true -> pat_closed A ->
+  ilu0 A junk = Ok (L, U, D) ->
+  (forall k, k < nrows A -> vget D k <> s0 /\ sinv (vget D k) <> s0) ->
+  length b0 = nrows A -> length x0 = nrows A ->
+  forall i, i < nrows A -> Ax A (ilu_apply L U D b0 x0) i = vget b0 i.
+Proof. exact (ilu0_closed_exact_solve_Qc A junk L U D b0 x0). Qed.
+Print Assumptions C06_ilu0_closed_pattern_exact_solve_Qc.
+
+(* non-vacuity with concrete NON-COMMUTING 2x2 blocks (BlockRelaxExamples.v): the hypotheses of the theorems
+   above hold, the multiplier of ILU(0) is B * A^-1 and not A^-1 * B, right products leave the vector shape *)
+Example C06_nc_nonvacuous_noncommuting_blocks : nb_check = true.
+Proof. exact nb_check_ok. Qed.
